@@ -1,7 +1,7 @@
 CONSTANTS
   RW = {"a", "c"}
   WW = {"b"}
-  MaxPW = 2
+  MaxPW = 1
   MaxFill = 1
   AllowShut = TRUE
   Eager = FALSE
